@@ -35,6 +35,7 @@ import M4riProofs.PleNaive
 import M4riProofs.MathlibSpec
 import M4riProofs.TrsmRec
 import M4riProofs.Top
+import M4riProofs.GenTie
 namespace M4ri.Props.C03
 open M4ri M4ri.BMat
 
@@ -136,5 +137,11 @@ theorem pluq_end_to_end (L1 L2 L3 : Nat) {A : BMat} (hA : A.WF) :
 #check @M4ri.BMat.G2.pluqOfPle_profile
 #check @M4ri.BMat.G2.goodPle_pleRec
 #check @M4ri.BMat.G2.pluqOfPle_needs_qtail
+
+
+/-! ### tie to the C text: the functions below are GENERATED from /repo/m4ri by vlib/ctrans.py (clang AST) on every
+    check (M4ri/Gen/CFuns.lean); these theorems prove them equal to the hand-written model definitions the theorems
+    above are about, for all arguments of the C domain -/
+#check @M4ri.GenTie.pleSplit_eq
 
 end M4ri.Props.C03
